@@ -84,6 +84,35 @@ static bool enabled(const std::vector<int>& prefix, int op) {
 }
 }  // namespace k64
 
+// ================================================================= Clipper64, scanline-sensitive alphabet
+// Two quadrilaterals whose long, nearly parallel edges cross at (1,50): at every scanline y in 26..74 both edges round to the
+// same x, so ANY additional scanline in that range (left over from paths that were added, executed and cleared before) may move
+// the computed crossing. E is a row of 60 far-away slivers with a local minimum on each y in 20..79.
+namespace k64s {
+enum { ADD_NS, ADD_NC, ADD_E, EX_NOCLIP, EX_INT, EX_UNION, EX_XOR, CLEAR, NOPS };
+static const char* names[] = {"AddSubject(Ns)", "AddClip(Nc)", "AddSubject(E)", "Execute(NoClip,NonZero)->paths", "Execute(Intersection,NonZero)->paths", "Execute(Union,NonZero)->paths", "Execute(Xor,NonZero)->paths", "Clear()"};
+static CL::Paths64 Ns{mk({-50, 100, 0, 100, 2, 0, -50, 0})}, Nc{mk({2, 100, 50, 100, 50, 0, 0, 0})};
+static CL::Paths64& E() { static CL::Paths64 e; if (e.empty()) for (int k = 0; k < 60; ++k) e.push_back(mk({300 + 20 * k, 20 + k, 310 + 20 * k, 20 + k, 305 + 20 * k, 19 + k})); return e; }
+static std::string run(const std::vector<int>& h) {
+  CL::Clipper64 c; std::string out; CL::Paths64 s, o;
+  for (size_t i = 0; i < h.size(); ++i) {
+    out.clear();
+    switch (h[i]) {
+      case ADD_NS: c.AddSubject(Ns); break; case ADD_NC: c.AddClip(Nc); break; case ADD_E: c.AddSubject(E()); break; case CLEAR: c.Clear(); break;
+      case EX_NOCLIP: case EX_INT: case EX_UNION: case EX_XOR: {
+        CL::ClipType ct = h[i] == EX_NOCLIP ? CL::ClipType::NoClip : h[i] == EX_INT ? CL::ClipType::Intersection : h[i] == EX_UNION ? CL::ClipType::Union : CL::ClipType::Xor;
+        bool ok = c.Execute(ct, CL::FillRule::NonZero, s, o); out = ok ? "T" : "F"; ser(out, s); ser(out, o); break; }
+    }
+  }
+  return out;
+}
+static std::vector<int> reduce(const std::vector<int>& h) {
+  std::vector<int> adds;
+  for (size_t i = 0; i + 1 < h.size(); ++i) { int op = h[i]; if (op <= ADD_E) adds.push_back(op); else if (op == CLEAR) adds.clear(); }
+  adds.push_back(h.back()); return adds;
+}
+}  // namespace k64s
+
 // ================================================================= ClipperD
 namespace kD {
 enum { ADD_A, ADD_C, ADD_O, PC_F, RS_T, RS_F, EX_INT_NZ, EX_TREE_UNION_EO, EX_DIFF_POS, EX_NOCLIP, CLEAR, NOPS };
@@ -287,7 +316,7 @@ static void probe_double_container(Reporter& rep) {
   if (pid == 0) {
     signal(SIGSEGV, SIG_DFL); signal(SIGABRT, SIG_DFL); signal(SIGBUS, SIG_DFL);
     struct rlimit rl; rl.rlim_cur = rl.rlim_max = (rlim_t)512 << 20; setrlimit(RLIMIT_AS, &rl);   // bounded memory and time for the probe
-    alarm(10);
+    { struct rlimit rt; rt.rlim_cur = 10; rt.rlim_max = 11; setrlimit(RLIMIT_CPU, &rt); } alarm(300);
     CL::Clipper64 c; c.AddReuseableData(k64::R()); c.AddReuseableData(k64::R()); CL::Paths64 s;
     c.Execute(CL::ClipType::Intersection, CL::FillRule::NonZero, s);
     // compare with a clipper that got the container's paths once... (two copies of every path => winding doubles; any defined result is accepted here)
@@ -304,7 +333,9 @@ static void probe_double_container(Reporter& rep) {
 int main(int argc, char** argv) {
   Args a = parse_args(argc, argv);
   Reporter rep(a); install_crash_handler(rep);
-  std::vector<Kind> kinds(5);
+  std::vector<Kind> kinds(6);
+  kinds[5].name = "Clipper64_scanlines"; for (int i = 0; i < k64s::NOPS; ++i) { kinds[5].ops.push_back(k64s::names[i]); kinds[5].is_exec.push_back(i >= k64s::EX_NOCLIP && i <= k64s::EX_XOR); }
+  kinds[5].run = k64s::run; kinds[5].reduce = k64s::reduce;
   kinds[0].name = "Clipper64"; for (int i = 0; i < k64::NOPS; ++i) { kinds[0].ops.push_back(k64::names[i]); kinds[0].is_exec.push_back(i == k64::EX_INT_NZ || i == k64::EX_XOR_EO || i == k64::EX_TREE_UNION_POS || i == k64::EX_TREE_NOCLIP); }
   kinds[0].run = k64::run; kinds[0].reduce = k64::reduce; kinds[0].enabled = k64::enabled;
   kinds[1].name = "ClipperD"; for (int i = 0; i < kD::NOPS; ++i) { kinds[1].ops.push_back(kD::names[i]); kinds[1].is_exec.push_back(i == kD::EX_INT_NZ || i == kD::EX_TREE_UNION_EO || i == kD::EX_DIFF_POS || i == kD::EX_NOCLIP); }
@@ -332,6 +363,7 @@ int main(int argc, char** argv) {
   std::string what = a.opt("what", "all");
   int depth = (int)a.opti("depth", 4);
   if (what == "all" || what == "Clipper64") { explore(rep, kinds[0], depth); probe_double_container(rep); }
+  if (what == "all" || what == "Clipper64" || what == "Clipper64_scanlines") explore(rep, kinds[5], std::min(depth, 6));
   if (what == "all" || what == "ClipperD") explore(rep, kinds[1], depth);
   if (what == "all" || what == "ClipperOffset") explore(rep, kinds[2], depth);
   if (what == "all" || what == "RectClip") { explore(rep, kinds[3], std::min(depth, 5)); explore(rep, kinds[4], std::min(depth, 5)); }
